@@ -111,8 +111,8 @@ def container(F, R):
                 # the handle proves a completed add: expected value was sampled while the index was still owned (DOM rule above)
                 R.ob('ONLY-UNDER', 'ONLY-UNDER::%s::mark-empty-expects-owned-slot' % fnkey(body), True, 'remove(): the expected value of the mark-empty CAS was loaded while the handle still owned the slot (slot of a completed add is odd)', a.site.where, body)
                 continue
-            conds = [sym_nstr(sym(body, body.blocks[b]['t'][1])) for (b, tgt) in lib.guard_switches(body, a.site)]
-            ok_ = any('contains_data' in c for c in conds)
+            conds = lib.path_conds(body, a.site, F)
+            ok_ = any('contains_data' in c and not c.startswith('!') for c in conds)
             R.ob('ONLY-UNDER', 'ONLY-UNDER::%s::mark-empty-only-if-odd' % fnkey(body), ok_, 'the CAS(v, v + 1) of %s is guarded by %s ; required contains_data(v): for an even v (owner died inside add before publishing) the increment would create a ghost entry' % (label, conds), a.site.where, body)
     R.floor('mark-empty CAS sites outside add', nmark, 2)
     # ------------------------------------------------------------- update_state
@@ -155,8 +155,8 @@ def container(F, R):
     okf = False
     conds = []
     for s in falses:
-        conds = [sym_nstr(sym(upd, upd.blocks[b]['t'][1])) for (b, tgt) in lib.guard_switches(upd, s)]
-        okf = any('==' in c and 'current_change_counter' in c and 'Atomic::load(self.change_counter' in c for c in conds)
+        conds = lib.path_conds(upd, s, F)
+        okf = any(' == ' in c and 'current_change_counter' in c and 'Atomic::load(self.change_counter' in c for c in conds)
     R.ob('ONLY-UNDER', 'ONLY-UNDER::%s::unchanged-iff-counter-equal' % fnkey(upd), okf and len(falses) == 1, '`false` (nothing changed) is returned under %s ; required recorded counter == loaded counter' % [c[:140] for c in conds], falses[0].where if falses else upd.file, upd)
     # ------------------------------------------------------------- parity test
     cd = F.fn(C + 'contains_data')
